@@ -21,7 +21,7 @@ def title(mid):
 def main():
     res = json.load(open(os.path.join(ROOT, "seeded", "RESULTS.json")))
     rows = []
-    caught = missed = 0
+    caught = missed = thorough_only = 0
     for mid in sorted(res):
         r = res[mid]
         if mid.startswith("SELF-"):
@@ -33,6 +33,13 @@ def main():
             rows.append(f"| {mid} | {title(mid)} | n/a | no longer a behavioural change: {r['neutralized_by'][:70]}... |")
             continue
         own = r.get("checks", {}).get(r.get("property"), {})
+        meta_p = os.path.join(ROOT, "seeded", mid, "meta.json")
+        meta = json.load(open(meta_p)) if os.path.exists(meta_p) else {}
+        if own.get("exit") != 1 and meta.get("thorough_tier", {}).get("caught"):
+            thorough_only += 1
+            sig = re.sub(r"^C\d\d \| ", "", meta["thorough_tier"]["signature"]).replace("|", "\\|")[:95]
+            rows.append(f"| {mid} | {title(mid)} | thorough only | {sig} |")
+            continue
         ok = own.get("exit") == 1
         caught += ok
         missed += (not ok)
@@ -40,8 +47,9 @@ def main():
         sig = re.sub(r"^C\d\d \| ", "", sig).replace("|", "\\|")[:95]
         rows.append(f"| {mid} | {title(mid)} | {'caught' if ok else 'MISSED'} | {sig} |")
     na = sum(1 for r in res.values() if r.get("neutralized_by") or r.get("not_a_violation"))
-    head = (f"{caught + missed + na} independently seeded changes kept; {na} of them are not (or no longer) violations of their property "
-            f"(see their meta.json); of the other {caught + missed}, {caught} are caught by the quick check of their own property"
+    head = (f"{caught + missed + na + thorough_only} independently seeded changes kept; {na} of them are not (or no longer) violations of their property "
+            f"(see their meta.json); of the other {caught + missed + thorough_only}, {caught} are caught by the quick check of their own property"
+            f"{'' if not thorough_only else f', {thorough_only} only by its thorough check (statistical effects below the resolution of the quick tier)'}"
             f"{'' if not missed else f', {missed} missed'} (`tools/mutants.py`, `/repo` at {next(iter(res.values())).get('repo_head', '?')}).\n\n"
             "| id | change (first line of the author's notes) | quick check | first signature reported |\n|---|---|---|---|\n")
     text = head + "\n".join(rows) + "\n"
